@@ -116,10 +116,12 @@ func c16Gen(c *engine.C) engine.Case {
 	}
 	include := engine.PickTag(c, "include-ext", "none", "java", "java,go", "java,js", "c,cpp,h")
 	topSize := []int{30, 1, 2}[c.Choose(3, "top-size")]
-	return func() engine.Result { return c16Check(files, dirs, ignored, emptyDir, include, topSize) }
+	// the report directory already holds the reports of an earlier state of the tree (one more file in every subdirectory)
+	earlier := c.Bool("reports-of-an-earlier-state-present")
+	return func() engine.Result { return c16Check(files, dirs, ignored, emptyDir, include, topSize, earlier) }
 }
 
-func c16Check(files []c16File, dirs, ignored []string, emptyDir bool, include string, topSize int) engine.Result {
+func c16Check(files []c16File, dirs, ignored []string, emptyDir bool, include string, topSize int, earlier bool) engine.Result {
 	var specs []FileSpec
 	for _, f := range files {
 		specs = append(specs, FileSpec{Path: filepath.Join("proj", f.Dir, f.Name), Content: c16Content(f)})
@@ -128,8 +130,8 @@ func c16Check(files []c16File, dirs, ignored []string, emptyDir bool, include st
 		specs = append(specs, FileSpec{Path: filepath.Join("proj", ig, "Hidden.java"), Content: "int hidden = 1;\nint hidden2 = 2;\n"})
 	}
 	specs = append(specs, FileSpec{Path: "proj/.keep-root", Content: ""})
-	res := engine.Result{InputKey: filesKey(specs) + fmt.Sprint(dirs, ignored, emptyDir, include, topSize),
-		Input: map[string]interface{}{"files": files, "ignored_dirs": ignored, "empty_dir": emptyDir, "include_ext": include, "top_size": topSize}, Nontrivial: len(files) > 0}
+	res := engine.Result{InputKey: filesKey(specs) + fmt.Sprint(dirs, ignored, emptyDir, include, topSize, earlier),
+		Input: map[string]interface{}{"files": files, "ignored_dirs": ignored, "empty_dir": emptyDir, "include_ext": include, "top_size": topSize, "reports_of_an_earlier_state_present": earlier}, Nontrivial: len(files) > 0}
 	root, cleanup := materialise(specs)
 	defer cleanup()
 	for _, d := range dirs {
@@ -165,6 +167,21 @@ func c16Check(files []c16File, dirs, ignored []string, emptyDir bool, include st
 		extra = []string{"-i", include}
 	}
 	var out []string
+	if earlier {
+		var gone []string
+		for _, d := range dirs {
+			p := filepath.Join(root, "proj", d, "Earlier.java")
+			os.WriteFile(p, []byte("int a = 1;\nint b = 2;\nint c = 3;\nint d = 4;\nint e = 5;\n"), 0o644)
+			gone = append(gone, p)
+		}
+		if r0 := runCLI(root, append([]string{"cloc", "proj", "--by-directory"}, extra...)...); r0.Exit != 0 {
+			res.Violations = append(res.Violations, engine.V("cli", "exit-status", "coca cloc --by-directory (earlier state) exited %d: %s", r0.Exit, trimTo(r0.Stderr+r0.Stdout, 600)))
+			return res
+		}
+		for _, p := range gone {
+			os.Remove(p)
+		}
+	}
 	// --- by-directory
 	r := runCLI(root, append([]string{"cloc", "proj", "--by-directory"}, extra...)...)
 	if r.Exit != 0 {
